@@ -145,7 +145,7 @@ theorem mapInv_setMap {s : State} (_hinv : Inv s) (h : MapInv s) (next idx : Nat
 
 theorem mount_mapInv {s : State} (hinv : Inv s) (h : MapInv s) (b : Bk) (path : Name) (map : Option Map) :
     MapInv (s.mount b path map).1 := by
-  rcases mount_cases s hinv.next b path map with h1 | ⟨next, _, h1⟩ | ⟨next, idx, hn, hne, hlt, hvac, h1 | ⟨s3, r, hins, h1, _⟩⟩
+  rcases mount_cases s hinv.next b path map with ⟨h1, _⟩ | ⟨next, _, h1, _⟩ | ⟨next, idx, hn, hne, hlt, hvac, ⟨h1, _⟩ | ⟨s3, r, hins, h1, _⟩⟩
   · rw [h1]; exact h
   · rw [h1]; exact mapInv_of_eq h rfl rfl rfl rfl
   · rw [h1]; exact mapInv_setMap hinv h next idx map hvac
